@@ -121,10 +121,15 @@ impl NavigationState {
         };
     }
 
+    /// Reset for a new expression: in addition to 'reset()', the place markers are forgotten because they refer to ids of the previous expression
+    pub fn reset_for_new_expression(&mut self) {
+        self.reset();
+        self.place_markers = Default::default();
+    }
+
     pub fn reset(&mut self) {
         self.position_stack.clear();
         self.command_stack.clear();
-        self.place_markers = Default::default();        // they refer to ids of the previous expression
         self.where_am_i = NavigationPosition::default();
         self.reset_start_time()
         
